@@ -790,7 +790,7 @@ def _check_model(ctx, w, which, obs, exp_stored, exp_members, exp_nparent, exp_n
 
 
 def run(ctx):
-    for idx in ctx.cases(quick=30, thorough=110):
+    for idx in ctx.cases(quick=30, thorough=90):
         rng = ctx.rng(idx)
         ctx.reseed_global(idx)
         shape, nontrivial, w = one_case(ctx, rng, idx)
